@@ -476,8 +476,24 @@ def patho_block_general_shared_column(rng):
     return b
 
 
+def patho_near_equal_exponents(rng):
+    """two different primitives of one momentum whose exponents agree to nine or ten significant digits, used by different
+    contractions (6ZaPa-NR chlorine: 2511.423070 and 2511.423068): they are two primitives, not one"""
+    b = gen_basis(rng, nel=1, allow_fused=False, lmax=1)
+    el = next(iter(b['elements'].values()))
+    l = rng.choice([0, 1])
+    a, c = rng.choice([('2511.423070', '2511.423068'), ('1053.265800', '1053.265795'), ('0.31415926535', '0.31415926536')])
+    el['electron_shells'] = [{'function_type': 'gto', 'region': '', 'angular_momentum': [l], 'exponents': [a, '96.25', '7.5'],
+                              'coefficients': [['0.0213', '0.3347', '0.7121']]},
+                             {'function_type': 'gto', 'region': '', 'angular_momentum': [l], 'exponents': [c, '21.75', '1.125'],
+                              'coefficients': [['-0.0107', '0.2919', '0.8034']]},
+                             {'function_type': 'gto', 'region': '', 'angular_momentum': [l], 'exponents': ['0.0625'], 'coefficients': [['1.0']]}]
+    b['function_types'] = whole_types(b['elements'])
+    return b
+
+
 NOT_VALIDATOR_VALID = [patho_fused_zero_member]
 PATHOLOGICAL = [patho_dup_function, patho_contraction_on_free, patho_mixed_fused, patho_spd, patho_spd_free_low, patho_pd_fused,
                 patho_equal_coefficients, patho_plain_then_fused_shared, patho_cancelling, patho_unsorted_fused, patho_respelled_shared,
                 patho_p_only_primitive_in_sp, patho_tiny_edge_coefficient,
-                patho_block_general_shared_column]
+                patho_block_general_shared_column, patho_near_equal_exponents]
